@@ -118,3 +118,8 @@ class FnBox(object):
     def mean(self, *args, w=1):
         self._log("mean")
         return sum(args) * w / len(args)
+
+    def tot(self, c):
+        """Reads a whole container (dict or list) passed as one argument."""
+        self._log("tot")
+        return sum(c.values()) if isinstance(c, dict) else sum(c)
